@@ -175,11 +175,69 @@ def run_history(ctx, h, nops, model_in, expect):
                 if not (a is b and b is c):
                     ctx.violate({'clause': 'eGet'}, f'o{i}.f{f.fid}: eGet(name), eGet(feature), attribute differ',
                                 {'metamodel': w.mm_lines(), 'ops': lines[:]})
+        # what an object names as its container lists it among its contents — also after a reflective write with a
+        # feature the object's class does not have (which may be refused, or land nowhere: it must not half-happen)
+        if step % 4 == 3:
+            foreign = [(i, f) for i, o in enumerate(w.objs) for f in mm.feats
+                       if f not in mm.feats_of(w.classes.index(o.eClass))]
+            if foreign:
+                i, f = rng.choice(foreign)
+                if f.ref:
+                    fits = [j for j, y in enumerate(w.objs) if j != i and mm.conforms(w.classes.index(y.eClass), f.typ[1])
+                            and y.eContainer() is None]
+                    v = (f'o:{rng.choice(fits)}', True) if fits else None
+                else:
+                    v = (g.attr_val(f), True)
+                if v is not None and v[0] != 'n' and not (f.ref and f.many):
+                    before = w.dump()
+                    try:
+                        w.objs[i].eSet(w.feats[f.fid], w.val(v[0]))
+                        ctx.count('foreign-eSet/returned')
+                    except Exception:
+                        ctx.count('foreign-eSet/raised')
+                    w.objs[i].__dict__.pop(f.name, None)       # (a plain Python attribute is all the clean tree leaves)
+                    ctx.evaluations += 1
+                    if w.dump() != before:
+                        ctx.violate({'clause': 'foreign-eSet-changed-model'},
+                                    f'o{i}.eSet(<feature f{f.fid} of another class>, {v[0]}) changed the model',
+                                    {'metamodel': w.mm_lines(), 'ops': lines[:], 'probe': f'eSet o{i} f{f.fid} {v[0]}'})
+        for i, o in enumerate(w.objs):
+            p = o.eContainer()
+            if p is not None and not any(c is o for c in p.eContents):
+                ctx.violate({'clause': 'container-without-contents'},
+                            f'o{i}.eContainer() is o{w.oid(p)}, whose eContents does not list it (after `{line}`)',
+                            {'metamodel': w.mm_lines(), 'ops': lines[:]})
         if ctx.violations:
             break
     ctx.traces += 1
     if h < 2:
         ctx.sample({'metamodel': w.mm_lines(), 'ops': lines[:10], 'views': {k: v for k, v in independent_views(w).items()}})
+
+
+def ecore_level(ctx):
+    """metamodel elements are objects too: a reflective write with the feature object does what the attribute syntax does
+    (eOpposite of EReference and instanceClassName of EDataType are Python properties over the reflective features)"""
+    from pyecore import ecore as E
+    fo = E.EReference.eClass.findEStructuralFeature('eOpposite')
+    fi = E.EDataType.eClass.findEStructuralFeature('instanceClassName')
+    for how in ('feature', 'name', 'attribute'):
+        A, B = E.EClass('A'), E.EClass('B')
+        r1, r2 = E.EReference('r1', B), E.EReference('r2', A)
+        A.eStructuralFeatures.append(r1); B.eStructuralFeatures.append(r2)
+        dt = E.EDataType('D')
+        if how == 'feature':
+            r1.eSet(fo, r2); dt.eSet(fi, 'int')
+        elif how == 'name':
+            r1.eSet('eOpposite', r2); dt.eSet('instanceClassName', 'int')
+        else:
+            r1.eOpposite = r2; dt.instanceClassName = 'int'
+        ctx.evaluations += 1
+        got = (r1.eOpposite is r2, r2.eOpposite is r1, r1.eGet(fo) is r2, r1.eGet('eOpposite') is r2, dt.eType is int,
+               dt.eGet(fi) == 'int', dt.instanceClassName == 'int')
+        if not all(got):
+            ctx.violate({'clause': 'ecore-level-eSet', 'how': how},
+                        f'eOpposite / instanceClassName written by {how}: (r1.eOpposite is r2, r2.eOpposite is r1, eGet(feature), '
+                        f'eGet(name), eType is int, eGet(instanceClassName), attribute) = {got}', {'how': how})
 
 
 def run(ctx):
@@ -192,6 +250,7 @@ def run(ctx):
                 'per metamodel: eAllSuperTypes / eAllStructuralFeatures / eAllReferences / eAllAttributes / findEStructuralFeature '
                 'against the declared hierarchy. non-trivial & distinct = (history, step, object) with a non-empty subtree')
     model_in, expect = [], []
+    ecore_level(ctx)
     for h in range(n):
         run_history(ctx, h, nops, model_in, expect)
     for h in range(n):
